@@ -293,7 +293,7 @@ func (f *formatting) formatArrayLiteral(n *ArrayLiteral) {
 		}
 	}
 	f.indentLevel--
-	if multi[length-1].isNL() {
+	if !multi[length-1].isKey() { // `]` on its own line after newline or comment
 		f.indent()
 	}
 	f.write("]")
@@ -329,7 +329,7 @@ func (f *formatting) formatMapLiteral(n *MapLiteral) {
 		}
 	}
 	f.indentLevel--
-	if multi[length-1].isNL() {
+	if !multi[length-1].isKey() { // `}` on its own line after newline or comment
 		f.indent()
 	}
 	f.write("}")
